@@ -5,38 +5,23 @@ package eventbus
 import (
 	"fmt"
 	"reflect"
-	"sort"
-	"strings"
 )
 
-// Verif* helpers are added to the package at check time through `go build -overlay`
-// (they are not part of the repository). No verdict depends on them: they pick event
-// types that share a shard under whatever hash the tree uses, and print diagnostics.
+// Added to the package at check time through `go build -overlay` (not part of the
+// repository). No verdict depends on it: it lets the harness pick event types that share
+// a shard under whatever routing the tree uses. It depends on one private name only,
+// the method getShard(reflect.Type); if that does not compile against a tree, bin/check
+// rebuilds with hooks/fallback/ instead.
 
-// VerifShardIndex returns the index of the shard an event type is routed to.
-func VerifShardIndex(bus *EventBus, t reflect.Type) int {
-	s := bus.getShard(t)
-	for i := range bus.shards {
-		if bus.shards[i] == s {
-			return i
-		}
-	}
-	return -1
-}
+// VerifHookMode tells which variant of the hook was compiled in.
+const VerifHookMode = "primary"
 
-// VerifRegistryDump renders the handler registry (diagnostics only).
-func VerifRegistryDump(bus *EventBus) string {
-	var parts []string
-	for i := range bus.shards {
-		sh := bus.shards[i]
-		for t, hs := range sh.handlers {
-			var hp []string
-			for _, h := range hs {
-				hp = append(hp, fmt.Sprintf("%x:o%v/a%v/s%v/x%d", reflect.ValueOf(h.handler).Pointer()&0xffff, h.once, h.async, h.sequential, h.executed))
-			}
-			parts = append(parts, fmt.Sprintf("%d/%s=[%s]", i, t.String(), strings.Join(hp, ",")))
-		}
+// VerifShardKey identifies the shard an event type is routed to.
+func VerifShardKey(bus *EventBus, t reflect.Type) string {
+	v := reflect.ValueOf(bus.getShard(t))
+	switch v.Kind() {
+	case reflect.Pointer, reflect.Map, reflect.Slice, reflect.Chan, reflect.UnsafePointer:
+		return fmt.Sprintf("%x", v.Pointer())
 	}
-	sort.Strings(parts)
-	return strings.Join(parts, " ")
+	return fmt.Sprint(v.Interface())
 }
